@@ -171,12 +171,10 @@ impl<Wr: Write> Serializer for XmlSerializer<Wr> {
                 }
 
                 self.writer.write_all(b"=\"")?;
-                let url = if let Some(ref a) = *url_opt {
-                    a.as_bytes()
-                } else {
-                    b""
-                };
-                self.writer.write_all(url)?;
+                // A namespace name is an attribute value and needs the same escaping.
+                if let Some(ref url) = *url_opt {
+                    write_to_buf_escaped(&mut self.writer, url, true)?;
+                }
                 self.writer.write_all(b"\"")?;
             }
         }
